@@ -327,8 +327,50 @@ def argsev_case(case):
     return r
 
 
+def callbacks_case(case):
+    """'honours its arguments' over successive calls: the caller keeps ONE list of callbacks and passes it to every call.  A call is described by its own
+    arguments only: a call without max_step is not limited by the max_step of an earlier call, the caller's list is left as it was, each user callback
+    is invoked once per recorded step."""
+    de, I = _imports()
+    r = Res()
+    meth = case["method"]
+    t0, tf = case["span"]
+
+    def f(t, y, **kw):
+        return np.array([y[1], -y[0]])
+    y0 = np.array([np.sin(t0), np.cos(t0)])
+    hits = []
+
+    def user_cb(s):
+        hits.append(len(s))
+    shared = [user_cb] if case["kind"] == "list" else (user_cb,)
+    r.n = 1
+    key = "C18/callbacks/%s" % meth
+    try:
+        kw1 = {case["first"][0]: case["first"][1]}
+        res1 = de.solve_ivp(f, [t0, tf], y0.copy(), method=meth, atol=1e-8, rtol=1e-8, callbacks=shared, **kw1)
+        n1 = len(hits); del hits[:]
+        res2 = de.solve_ivp(f, [t0, tf], y0.copy(), method=meth, atol=1e-8, rtol=1e-8, callbacks=shared)
+        n2 = len(hits); del hits[:]
+        ref2 = de.solve_ivp(f, [t0, tf], y0.copy(), method=meth, atol=1e-8, rtol=1e-8, callbacks=[user_cb])
+    except Exception as e:
+        r.v(key + "/raises", "solve_ivp serves a valid request", case, observed=repr(e)[:200], expected="a result")
+        return r
+    if len(shared) != 1 or shared[0] is not user_cb:
+        r.v(key + "/caller-list", "the caller's list of callbacks is left as it was", case, observed=len(shared), expected=1)
+    if n1 != len(res1.t) - 1 or n2 != len(res2.t) - 1:
+        r.v(key + "/count", "each user callback is invoked once per recorded step", case, observed=dict(calls=[n1, n2], steps=[len(res1.t) - 1, len(res2.t) - 1]), expected="equal")
+    if not (np.array_equal(np.asarray(res2.t), np.asarray(ref2.t)) and np.array_equal(np.asarray(res2.y), np.asarray(ref2.y))):
+        r.v(key + "/later-call", "a call is described by its own arguments: the same call gives the same result whatever was asked of an earlier call", case,
+            observed=dict(steps=len(res2.t) - 1, longest=float(np.max(np.abs(np.diff(np.asarray(res2.t)))))), expected=dict(steps=len(ref2.t) - 1, longest=float(np.max(np.abs(np.diff(np.asarray(ref2.t)))))))
+    if case["first"][0] == "max_step" and float(np.max(np.abs(np.diff(np.asarray(res1.t))))) > case["first"][1] * (1 + 1e-12):
+        r.v(key + "/max_step", "no recorded step is longer than max_step", case, observed=float(np.max(np.abs(np.diff(np.asarray(res1.t))))), expected=case["first"][1])
+    r.out(("callbacks", meth, case["kind"], case["first"][0], tf > t0))
+    return r
+
+
 def run_case(case):
-    return dict(facade=facade_case, args=args_case, scipy=scipy_case, events=events_case, argsev=argsev_case)[case["section"]](case)
+    return dict(callbacks=callbacks_case, facade=facade_case, args=args_case, scipy=scipy_case, events=events_case, argsev=argsev_case)[case["section"]](case)
 
 
 def run(ctx):
@@ -387,6 +429,14 @@ def run(ctx):
             for sig in ("strict", "permissive"):
                 for jc in ((True, False) if nm == "RadauIIA5" else (True,)):
                     cases.append(dict(section="argsev", method=nm, as_class=ascls, span=list(span), signature=sig, jac=jc, first_step=fs))
+    # S3c: one list of callbacks passed to successive calls, the first of them with a step limit
+    for nm in ("RK45", "RK87", "DOPRI45", "RadauIIA5"):
+        for span in ((0.0, 2.0), (1.0, -1.0)):
+            for kind in ("list", "tuple"):
+                for first in (("max_step", 0.05), ("min_step", 0.2)):
+                    if nm == "RadauIIA5" and (ctx.quick and kind == "tuple"):
+                        continue
+                    cases.append(dict(section="callbacks", method=nm, span=list(span), kind=kind, first=list(first)))
     # S4: max_step
     for nm in ("RK45", "DOPRI45", "RK4", "Euler", "ABAS5O6H", "ImplicitMidpoint", "RadauIIA5", "RK87") + (() if ctx.quick else ("BackwardEuler", "GaussLegendre4", "RK1412", "AHE")):
         for span in fwd + [(1.0, -1.0), (2.0, 0.5)]:
